@@ -58,6 +58,11 @@ func raceBodies(r *core.Rand, nbodies int) []*raceBody {
 		}
 		root := &node{kind: 'F', scope: "n", agg: true, kids: []*node{
 			{kind: 'L', label: base, caps: 'b', scope: "n"}, mid, {kind: 'L', label: base + 999, caps: 'b', scope: "n"}}}
+		root.walk(func(x *node) { // keep the open port.Filter finding out of this tier
+			if x.kind == 'C' && x.cond.kind == 'p' {
+				x.cond = &condSpec{kind: 'u', b: "*.example"}
+			}
+		})
 		if r.Chance(1, 3) {
 			root = defect(r, root)
 		}
